@@ -3,14 +3,14 @@
 #   the suite still passes with it, its demo fails with it and passes without it.  usage: confirm_seed.sh <dir with patch.diff+demo.cpp>
 set -u
 S=$1
-W=/tmp/seedconfirm
+W=${SEEDW:-/tmp/seedconfirm}
 if [ ! -d $W ]; then
   git -C /repo worktree add -q --detach $W HEAD || exit 2
   (cd $W && cmake -G Ninja -S . -B _build -DLIBCELLML_BINDINGS_PYTHON=OFF -DLIBCELLML_COVERAGE=OFF -DLIBCELLML_MEMCHECK=OFF -DLIBCELLML_BUILD_TYPE=Release -DLIBCELLML_TREAT_WARNINGS_AS_ERRORS=OFF -DLIBCELLML_CLANG_TIDY=OFF >/dev/null 2>&1)
 fi
 cd $W && git checkout -q --detach $(git -C /repo rev-parse HEAD) 2>/dev/null; git checkout -q -- . 
 build() { cmake --build _build -j16 2>&1 | grep -E "error|FAILED" ; }
-demo() { g++ -std=c++17 -I src/api -I src/api/libcellml/module -I _build/src/api $S/demo.cpp -o /tmp/seeddemo -L _build/src -lcellmld -Wl,-rpath,$W/_build/src 2>&1 | head -5; (cd /tmp && timeout 120 /tmp/seeddemo >/tmp/seeddemo.out 2>&1; echo $?); }
+demo() { g++ -std=c++17 -I src/api -I src/api/libcellml/module -I _build/src/api $S/demo.cpp -o $W.demo -L _build/src -lcellmld -Wl,-rpath,$W/_build/src 2>&1 | head -5; (mkdir -p $W.run && cd $W.run && timeout 300 $W.demo >$W.demo.out 2>&1; echo $?); }
 build; P=$(demo | tail -1)
 git apply $S/patch.diff || { echo "PATCH-DOES-NOT-APPLY"; exit 3; }
 build
